@@ -71,6 +71,10 @@ type SPConfig struct {
 	SharedKeyStores *SharedKS
 	// SignerFault: keys handed to the setters are wrapped in signers that fail while Ctl.Fail is set
 	SignerFault *FaultCtl
+	// RejectedSetters: after configuration the application attempts a key rotation whose private key failed
+	// to load - SetSPKeyStore (bit 1) and/or SetSPSigningKeyStore (bit 2) are called with a KeyStore that
+	// carries another certificate and no Signer. The library refuses such a call; a refused call changes nothing.
+	RejectedSetters int
 
 	// Live: re-use (and re-configure in place) the process-wide long-lived SP instead of building a
 	// fresh one. Only for profiles that never sign (the signing context is lazily cached by design).
@@ -205,6 +209,15 @@ func NewSPNode(cfg *SPConfig, simNow func() time.Time) (*SPNode, error) {
 	}
 	if err := applyKeyRaw(sp, cfg.SigStyle, cfg.SigKeyIdx, cfg.SigCert, true, cfg.SigCertRaw, nil); err != nil {
 		return nil, err
+	}
+	if cfg.RejectedSetters != 0 {
+		stray := MintCert(5, time.Date(2000, 1, 1, 0, 0, 0, 0, time.UTC), time.Date(2100, 1, 1, 0, 0, 0, 0, time.UTC), 77)
+		if cfg.RejectedSetters&1 != 0 {
+			sp.SetSPKeyStore(&saml2.KeyStore{Cert: stray.DER})
+		}
+		if cfg.RejectedSetters&2 != 0 {
+			sp.SetSPSigningKeyStore(&saml2.KeyStore{Cert: stray.DER})
+		}
 	}
 	n.SP = sp
 	return n, nil
